@@ -17,6 +17,9 @@ PATCHES = {
     "dynamic": lambda vc: {"p2p_is_registered": vc.uint(1, "v1") == 1, "firmware": vc.uint(16, "v2")},
     "address_out": lambda vc: {"address_out": ("10.9.9.9", 4000), "nat_enabled": True},
     "mixed": lambda vc: {"serial": "SN-1", "custom": vc.uint(8, "v2")},
+    # (every built-in field is named by some patch: 'exactly the named built-in fields')
+    "address_nat": lambda vc: {"address_nat": ("198.51.100.7", 40000), "snmp_enabled": False},
+    "address_in": lambda vc: {"address_in": ("10.7.7.7", 50123)},
 }
 
 
@@ -92,8 +95,9 @@ def match_incoming(vc, pre, addr, auto_create, patch, prelude=0):
         vc.prove("same_object_for_the_same_address", got is known[a])
         vc.prove("lookup_of_a_known_address_never_grows_the_storage", len(st) == n0)
     elif auto_create:
-        vc.prove("auto_create_of_an_unseen_address_creates_one_record", len(st) == n0 + 1 and isinstance(got, Repeater) and got.address_in == a)
-        vc.prove("created_record_is_stored_under_its_id", st.match_attr("id", got.id) is got and st.match_incoming(a) is got)
+        now = p.get("address_in", a)  # (a patch may name the inbound address itself: the created record then carries the patched one)
+        vc.prove("auto_create_of_an_unseen_address_creates_one_record", len(st) == n0 + 1 and isinstance(got, Repeater) and got.address_in == now)
+        vc.prove("created_record_is_stored_under_its_id", st.match_attr("id", got.id) is got and st.match_incoming(now) is got)
         vc.prove("created_record_has_a_fresh_id", all(got.id != s["id"] for s in before))
     else:
         vc.prove("lookup_without_auto_create_never_grows_the_storage", len(st) == n0)
